@@ -11,12 +11,17 @@ from .runner import load_table
 
 def _calls_in_order(fn, names):
     out = []
-    for c in walk_k(fn.body, "Call", "MethodCall"):
+    for i, (c, anc) in enumerate(walk_anc(fn.body)):
+        if c.get("k") not in ("Call", "MethodCall"):
+            continue
         cal = callee(c) or ""
         if any(cal.endswith(n) for n in names):
-            out.append(c)
-    out.sort(key=lambda c: (c["span"]["l"], c["span"]["c"]))
-    return out
+            # a call inside the body of an inlined helper takes the place of the helper's call site
+            site = next((a for a in anc if a.get("k") == "BlockExpr" and a.get("inlined") and a.get("span")), None)
+            sp = (site or c)["span"]
+            out.append(((sp["l"], sp["c"], i), c))
+    out.sort(key=lambda t: t[0])
+    return [c for _, c in out]
 
 
 def r_tab_vbadir(ctx, rep):
@@ -28,8 +33,16 @@ def r_tab_vbadir(ctx, rep):
         return
     calls = _calls_in_order(fn, ("vba::check_variable_record", "vba::check_record"))
     got = []
+    from .kit import inl_params, const_value
+    imap = inl_params(fn.body)
     for c in calls:
-        v = lit_value(c["args"][0]) if c.get("args") else None
+        a0 = c["args"][0] if c.get("args") else None
+        # the id may arrive through the parameter of a wrapper that was inlined (`read_string_record(0x0019, ..)`)
+        hops = 0
+        while a0 is not None and lit_value(a0) is None and path_local(peel(a0)) and path_local(peel(a0))[1] in imap and hops < 4:
+            a0 = imap[path_local(peel(a0))[1]]
+            hops += 1
+        v = const_value(F, a0) if a0 is not None else None
         kind = "variable" if (callee(c) or "").endswith("check_variable_record") else "fixed"
         got.append((v, kind, c))
     want = [(int(r["id"], 16), r["kind"], r) for r in T["module_records"]]
@@ -68,8 +81,14 @@ def _derives_from_record(fn, e, rec_id, depth=0):
     if depth > 5:
         return False
     for c in walk_k(e, "Call"):
-        if (callee(c) or "").endswith("vba::check_variable_record") and c.get("args") and lit_value(c["args"][0]) == rec_id:
-            return True
+        if (callee(c) or "").endswith("vba::check_variable_record") and c.get("args"):
+            from .kit import inl_params
+            a0, imap, hops = c["args"][0], inl_params(fn.body), 0
+            while lit_value(a0) is None and path_local(peel(a0)) and path_local(peel(a0))[1] in imap and hops < 4:
+                a0 = imap[path_local(peel(a0))[1]]
+                hops += 1
+            if lit_value(a0) == rec_id:
+                return True
     for p in walk_k(e, "Path"):
         pl = path_local(p)
         if pl:
@@ -155,7 +174,21 @@ def r_vbamod(ctx, rep):
             src_ok = True
     di = F.fn("vba::read_dir_information")
     cp_ok = di is not None and any((callee(c) or "").endswith("XlsEncoding::from_codepage") for c in walk_k(di.body, "Call"))
-    if enc_ok and src_ok and cp_ok:
+    # ... and nothing else is ever returned as the module's text (a "plain ascii" fast path that returns bytes which
+    # happen to be valid UTF-8 bypasses the project's code page)
+    others = []
+    if gm is not None:
+        from .kit import let_init
+        for c in walk_k(gm.body, "Call"):
+            if (callee(c) or "").endswith("Result::Ok") and not c["span"].get("desugar") and c.get("args"):
+                a0 = c["args"][0]
+                li = let_init(gm.body, a0)
+                src = li["init"] if li is not None else a0
+                if not any(m.get("name") == "decode_all" for m in walk_k(src, "MethodCall")):
+                    others.append(c)
+    if enc_ok and src_ok and cp_ok and others:
+        rep.violation("R-VBAMOD", key, loc(others[0]), "get_module has a success value that does not come from self.encoding.decode_all: text in the project's code page whose bytes happen to be well-formed UTF-8 would be returned undecoded")
+    elif enc_ok and src_ok and cp_ok:
         rep.holds("R-VBAMOD", key, loc(gm.raw), "module text = self.encoding.decode_all(raw); the encoding is built from the PROJECTCODEPAGE value")
     else:
         rep.violation("R-VBAMOD", key, loc((gm or fc).raw), "module text is not decoded with the code page read from the project's dir stream (decode_all on self.encoding: %s, encoding from read_dir_information: %s, from_codepage there: %s)" % (enc_ok, src_ok, cp_ok))
